@@ -261,6 +261,13 @@ func writePacket(t *testing.T) {
 				var qer *gtp5gnl.QER
 				if qfi >= 0 {
 					qer = &gtp5gnl.QER{QFI: uint8(qfi)}
+					if l%2 == 1 {
+						// a QER as the data plane really hands it back: every other field set as well (reflective QoS, paging
+						// policy, gates, rates ...); the packet is a downlink G-PDU of PDU type 0 with this QFI all the same
+						qer.ID, qer.Gate, qer.CorrID, qer.RQI, qer.PPI = 0xfffffffe, 0x0f, 0xffffffff, 1, 7
+						qer.MBR.ULHigh, qer.MBR.DLHigh, qer.GBR.ULHigh, qer.GBR.DLHigh = 0xffffffff, 0xffffffff, 0xffffffff, 0xffffffff
+						qer.PDRIDs = []uint16{1, 0xffff}
+					}
 				}
 				pl := payload(l, byte(qfi))
 				c := Case{WithExt: qfi >= 0, QFI: uint8(max(qfi, 0)), TEID: teid, Payload: pl}
@@ -281,6 +288,11 @@ func writePacket(t *testing.T) {
 					continue
 				}
 				q, has := p.QFI()
+				if first, units, ok := p.PSC(); ok && (first != 0 || units != 1) {
+					// a re-injected downlink packet: PDU type 0, no optional PSC fields announced, one 4-octet unit
+					vcore.Report(t, vcore.Violatef("writepacket-psc", "WritePacket(teid %#x, qfi %d, QER %+v): PDU Session Container starts with octet %#02x (PDU type %d, flags %#x) in %d unit(s); want PDU type 0 in one unit",
+						teid, qfi, *qer, first, first>>4, first&0x0f, units), c)
+				}
 				if p.Version != 1 || p.PT != 1 || p.Type != 255 || p.TEID != teid || !bytes.Equal(p.Payload, pl) || has != (qfi >= 0) || (has && int(q) != qfi) {
 					vcore.Report(t, vcore.Violatef("writepacket-fields", "WritePacket(teid %#x, qfi %d, %d payload bytes) produced version %d pt %d type %d teid %#x qfi %d (present %v) payload %d bytes",
 						teid, qfi, l, p.Version, p.PT, p.Type, p.TEID, q, has, len(p.Payload)), c)
